@@ -9,4 +9,14 @@ def run(ctx):
            what="read, get_continuous_blocks, read(sub_channel), get_bounds, read_vector / read_vector_raw / read_vector_1d on "
                 "all interesting points (file, block, gap edges +-1, session starts, outside the data), random split points, "
                 "vector lengths 1, 2, nsub and random",
-           bad_rate=0.02, empty_rate=0.0, observe_pairs=ctx.pick(32, 70), nvec=ctx.pick(18, 40))
+           bad_rate=0.02, empty_rate=0.0, observe_pairs=ctx.pick(32, 70), nvec=ctx.pick(18, 40),
+           # a channel spread over two top-level directories whose periods interleave (the reader is given them in either order)
+           extra=lambda c, drf: two_directories(c, drf))
+
+
+def two_directories(ctx, digital_rf):
+    scen, _ = cc.e3(ctx, digital_rf, ctx.pick(14, 300), nd=2, nsessions=4, bad_rate=0.0, empty_rate=0.0,
+                    observe_pairs=ctx.pick(20, 50), nvec=ctx.pick(10, 30))
+    for s in scen:
+        s["name"] = "twodir-" + s["name"]
+    return scen
